@@ -74,11 +74,36 @@ def drive(ctx, strategy, body, max_examples, name="", max_classes=6, shrink=True
     return found
 
 
-def drive_machine(ctx, machine_cls, max_examples, steps, name="", stream=0):
+def ddmin_steps(steps, still_fails):
+    """Delta-debugging over a list of plain steps: remove chunks while `still_fails(candidate)` holds."""
+    steps = list(steps)
+    n = 2
+    while len(steps) >= 2:
+        chunk = max(1, len(steps) // n)
+        reduced = False
+        i = 0
+        while i < len(steps):
+            cand = steps[:i] + steps[i + chunk :]
+            if cand and still_fails(cand):
+                steps = cand
+                reduced = True
+            else:
+                i += chunk
+        if not reduced:
+            if chunk == 1:
+                break
+            n = min(len(steps), n * 2)
+    return steps
+
+
+def drive_machine(ctx, machine_cls, max_examples, steps, name="", stream=0, minimise=None):
+    """minimise(history, cls) -> smaller history: when given, Hypothesis' own (slow) stateful shrinker is switched
+    off and the recorded plain history is minimised by the property module (delta debugging over steps)."""
     """Run a RuleBasedStateMachine; the machine reports violations by raising MachineViolation(cls, what, history)."""
     from hypothesis.stateful import run_state_machine_as_test
 
     excluded = set(ctx.open_classes())
+    machine_cls._known_open = set(excluded)
     rounds = 0
     while rounds < 6:
         rounds += 1
@@ -94,6 +119,7 @@ def drive_machine(ctx, machine_cls, max_examples, steps, name="", stream=0):
             report_multiple_bugs=False,
             suppress_health_check=list(HealthCheck),
             print_blob=False,
+            phases=[Phase.explicit, Phase.generate] + ([] if minimise else [Phase.shrink]),
         )
         try:
             run_state_machine_as_test(hypothesis.seed(ctx.seed * 1000003 + stream * 101 + rounds)(machine_cls), settings=s)
@@ -108,7 +134,10 @@ def drive_machine(ctx, machine_cls, max_examples, steps, name="", stream=0):
         v = machine_cls._last
         if v is None:
             raise RuntimeError("state machine failed without recording a violation")
-        ctx.violation(v.cls, "%s%s" % ((name + ": ") if name else "", v.what), v.history)
+        hist = v.history
+        if minimise:
+            hist = minimise(hist, v.cls)
+        ctx.violation(v.cls, "%s%s" % ((name + ": ") if name else "", v.what), hist)
         excluded.add(v.cls)
 
 
